@@ -46,4 +46,12 @@ CHECKS = {
             {"pkg": "c02", "run": "TestNet", "checks": {Q: 3000, T: 64000}, "shards": {Q: 4, T: 16}},
         ],
     },
+    'C11': {'level': 'exploration',
+ 'assumptions': ['header values are printable ASCII without leading/trailing blanks (HTTP strips those); keys are outside the protocol-reserved prefixes',
+                 "for unary and client-stream handlers that fail, only the error's own metadata is expected (the API gives such handlers no response object to "
+                 'put headers on)'],
+ 'jobs': [{'pkg': 'c11', 'run': 'TestMem', 'checks': {'quick': 6000, 'thorough': 200000}, 'shards': {'quick': 4, 'thorough': 16}},
+          {'pkg': 'c11', 'run': 'TestNet', 'checks': {'quick': 3000, 'thorough': 64000}, 'shards': {'quick': 4, 'thorough': 16}},
+          {'pkg': 'c11', 'run': 'TestBinaryHelpers'},
+          {'pkg': 'c11', 'run': 'TestBinaryHelpersRandom', 'checks': {'quick': 20000, 'thorough': 400000}, 'shards': {'quick': 1, 'thorough': 4}}]},
 }
